@@ -915,6 +915,8 @@ func (st *casState) checkEnd() {
 					simrt.Fail("oracle:highest-priority", "hp/after-finish", "HighestPriority() = %d at the end of cascade %d, want -1", hp, cas.id)
 				}
 			}
+			// "all failures are reported": the report of the finished cascade holds every failure
+			st.checkErrors(cas, "end of run (quiescent)")
 		}
 	}
 	if st.prop == "C10" {
